@@ -63,7 +63,8 @@ func c20(c *Ctx) {
 				short+" touches the file system (and takes the store mutex) only after isValidDBName(name) answered true", "a name such as '../../evil' or './x' is joined to the data directory: a directory outside it is created, or an existing database is truncated and the store mutex dead-locks")
 		}
 		c.OnlyIn("names/dbpath-callers", p.Calls("litefs.(*Store).DBPath"), []string{pat("litefs.(*Store).CreateDB"), pat("litefs.(*Store).CreateDBIfNotExists"), pat("litefs.(*Store).openDatabase")}, 3, "a database path is derived from a name only by the two validating creators and by openDatabase (names read from the directory listing)", "")
-		c.Expect("names/validator-def", strings.Join(c.returnsOf("litefs.isValidDBName"), ";"), pat("phi((p0 == path/filepath.Base(p0))|false)"), "isValidDBName(name): name equals its own base name ...", "")
+		c.Expect("names/validator-def", strings.Join(c.returnsOf("litefs.isValidDBName"), ";"), pat("phi(!strings.ContainsRune(p0, 47)|false)"), "isValidDBName(name): name contains no path separator ...", "F56: filepath.Base(\"/\") is \"/\": the name \"/\" passed the base-name test, created files directly in the dbs directory and made the node unstartable")
+		c.Guarded("names/validator-base", "litefs.isValidDBName", p.PlainCalls("strings.ContainsRune"), gs(GP("(p0 == path/filepath.Base(p0))", true)), 1, "... and equals its own base name ...", "")
 		for i, lit := range []string{`""`, `"."`, `".."`} {
 			c.Guarded(fmt.Sprintf("names/validator-rejects/%d", i+1), "litefs.isValidDBName", p.PlainCalls("path/filepath.Base"), gs(G(pat("("+lit+" == p0)")+"|"+pat("(p0 == "+lit+")"), false)), 1, "... and is not "+lit, "")
 		}
@@ -263,6 +264,7 @@ func c20(c *Ctx) {
 
 	c.pageSizeBeforeCreate("validate-first/handlePostTx/body")
 	c.importBodyBeforeCreate("validate-first/handlePostImport")
+	c.postApplyVerifiedBeforePublish("forwarded")
 
 	// ---- no-fatal ----
 	{
@@ -531,4 +533,17 @@ func (c *Ctx) importBodyBeforeCreate(prefix string) {
 	c.Before(prefix+"/image-checked-before-create", h, p.PlainCalls("litefs.(*Store).CreateDBIfNotExists"), readsBody, 1,
 		"the database is created only after the handler has read (the header of) the request body",
 		"an import whose body is no database image, or a truncated one, into a name that does not exist leaves a new empty database in the store and on disk although the request failed")
+}
+
+// postApplyVerifiedBeforePublish (C20, C13; known finding KF5): an incoming
+// transaction file names the checksum the database must have after it was
+// applied. WriteLTXFileAt publishes the file (renames it into the log) without
+// comparing that checksum with the one the database would have; the comparison
+// happens in the fatal apply, after the pages were written.
+func (c *Ctx) postApplyVerifiedBeforePublish(prefix string) {
+	p := c.P
+	wl := "litefs.(*DB).WriteLTXFileAt"
+	c.Before(prefix+"/post-apply-checksum-verified-before-publish", wl, p.PlainCalls("litefs.OS.Rename"), p.PlainCalls("litefs.(*DB).checksum", "litefs.(*DB).onDiskChecksum"), 1,
+		"an incoming transaction file is renamed into the log only after the post-apply checksum it names was compared with the one the database would have",
+		"a well-formed file from the holder of the halt lock with a wrong post-apply checksum is published, the fatal apply writes its pages, finds the mismatch and stops the primary - which then cannot start again because the file is the newest in the log")
 }
